@@ -249,6 +249,27 @@ func init() {
 				nops = 55 + r.n(60) // past the row list's initial capacity and a doubling beyond
 			}
 			var known []int // all non-separator rows with a cell slice, attached or not
+			if aux != "" {
+				// first of all: a row the wider table sized, filled before or after it joins this (still empty) one
+				id := idOf(g.do("newrowsized " + aux))
+				rr := &refRow{id: id}
+				known = append(known, id)
+				fill := func() {
+					for j := 0; j < 1+r.n(2); j++ {
+						g.do(fmt.Sprintf("rowadd R%d %s", id, items[r.n(len(items))]))
+						rr.n++
+					}
+				}
+				if r.chance(1, 2) {
+					fill()
+				}
+				g.do(fmt.Sprintf("addrow %s R%d", t, id))
+				rt.rows = append(rt.rows, rr)
+				if rr.n == 0 || r.chance(1, 2) {
+					fill()
+				}
+				viol = append(viol, checkObs(rt, g.do("obs "+t))...)
+			}
 			for i := 0; i < nops; i++ {
 				switch k := r.n(12); {
 				case k == 0:
